@@ -231,10 +231,10 @@ class P:
             self.expect(")")
             self.expect(";")
             return ("decl", name, e)
-        if v == "const" and self.peek(1)[1] in ("std::ptrdiff_t", "ForwardIterator", "bool", "size_t", "std::size_t"):
+        if v == "const" and self.peek(1)[1] in ("std::ptrdiff_t", "ForwardIterator", "bool", "size_t", "std::size_t", "auto", "std::string"):
             self.next()      # a const local: same value semantics
             k, v = self.peek()
-        if k == "id" and v in ("std::ptrdiff_t", "ForwardIterator", "bool", "size_t", "std::size_t") and \
+        if k == "id" and v in ("std::ptrdiff_t", "ForwardIterator", "bool", "size_t", "std::size_t", "auto", "std::string") and \
                 self.peek(1)[0] == "id" and self.peek(2)[1] == "(":
             ty = self.next()[1]
             name = self.next()[1]
@@ -308,6 +308,12 @@ class P:
             op = self.next()[1]
             rhs = self.expr()
             return ("assign", op, lhs, rhs)
+        if self.peek()[1] == "?":
+            self.next()
+            a = self.expr()
+            self.expect(":")
+            b = self.expr()
+            return ("cond", lhs, a, b)
         return lhs
 
     def lor(self):
